@@ -8,7 +8,18 @@
 (*   kind "plain":  stage_i(c) writes through c and returns it             *)
 (*   kind "ufork":  stage_i(c) = return inner_i(c.fork("a"))  (an explicit *)
 (*                  user fork handed to the task that writes)              *)
-(* A run has a version vector (which body each writing task has).          *)
+(* A run has a version vector (which body each writing task has) and may   *)
+(* FAIL at one stage: the writing task of that stage performs its side     *)
+(* effect and then raises, the run ends in an error there.  Nothing is     *)
+(* stored for a failed job -- but the rollback of the state it started     *)
+(* from has happened, because _perform_rollbacks runs after the cache miss *)
+(* and BEFORE the job is handed to an executor: the external system is now *)
+(* in a partial state, so everything derived from the start state is       *)
+(* invalid and the stage must execute again after a revert.  The what-if   *)
+(* deviation NoRollbackOnFailure (not a deviation of the code as built)    *)
+(* rolls back only when the job succeeds: TLC shows that an invalidated     *)
+(* result is then replayed, and the generator uses it to pick the          *)
+(* histories that tell the two apart.                                      *)
 (*                                                                         *)
 (* What the scheduler does per job (redun/scheduler.py                     *)
 (* _exec_job_main_thread, _get_cache, _done_job_main_thread):              *)
@@ -28,7 +39,8 @@
 (***************************************************************************)
 EXTENDS Handles
 
-CONSTANTS NStages, MaxRuns, StageKinds, Versions
+CONSTANTS NStages, MaxRuns, StageKinds, Versions,
+          FailAt     \* stages at which a run may fail; 0 = the run succeeds
 KindChoices == [1..NStages -> StageKinds]
 
 WfName == CHOOSE n \in Names : TRUE
@@ -48,52 +60,70 @@ RbS(D, S, h) ==
    system state is therefore bound by a quantifier over a singleton set (x \in {e} is evaluated
    once), and the operators below return singleton sets that are chained with UNION. *)
 
-\* the job that writes: input state P (already forked), label of its evaluation
-\* result: [S, out, ex (did it execute), bad (replayed although the reference says invalid)]
-WriterS(D, S, P, lab) ==
+\* the job that writes: input state P (already forked), label of its evaluation, does it fail
+\* result: [S, out, ex (did it execute), bad (replayed although the reference says invalid), failed]
+WriterS(D, S, P, lab, fails) ==
   LET O == Call(P, lab)
-  IN IF O \in S.done /\ O \in S.m.valid
-     THEN {[S |-> S, out |-> O, ex |-> FALSE, bad |-> O \notin S.r.valid]}
-     ELSE {[S |-> [S3 EXCEPT !.done = @ \cup {O}], out |-> O, ex |-> TRUE, bad |-> FALSE] :
+  IN IF ~fails /\ O \in S.done /\ O \in S.m.valid
+     THEN {[S |-> S, out |-> O, ex |-> FALSE, bad |-> O \notin S.r.valid, failed |-> FALSE]}
+     ELSE IF fails
+     THEN \* cache miss (errors are never served from the backend cache), rollback, execute, raise
+          {[S |-> S2, out |-> O, ex |-> TRUE, bad |-> FALSE, failed |-> TRUE] :
+             S2 \in {IF "NoRollbackOnFailure" \in D THEN [S EXCEPT !.r = RefRb(S.r, P)] ELSE RbS(D, S, P)}}
+     ELSE {[S |-> [S3 EXCEPT !.done = @ \cup {O}], out |-> O, ex |-> TRUE, bad |-> FALSE, failed |-> FALSE] :
              S3 \in UNION {{AdvS(D, S2, {P}, O, {})} : S2 \in {RbS(D, S, P)}}}
 
-UForkS(D, S1, P, lab) ==
+UForkS(D, S1, P, lab, fails) ==
   LET x == Fork(P, "a")
       X2 == Fork(x, "a")
       whit == P \in S1.wdone /\ x \in S1.m.valid
       wbad == whit /\ x \notin S1.r.valid
-  IN UNION {UNION {{[w EXCEPT !.bad = @ \/ wbad] : w \in WriterS(D, S3, X2, lab)} :
+  IN UNION {UNION {{[w EXCEPT !.bad = @ \/ wbad] : w \in WriterS(D, S3, X2, lab, fails)} :
                      S3 \in {AdvS(D, S2, {x}, X2, IF whit THEN {} ELSE {x})}} :
               S2 \in {IF whit THEN S1 ELSE [RbS(D, S1, P) EXCEPT !.wdone = @ \cup {P}]}}
 
-StageS(D, S, kind, i, s, ver) ==
+StageS(D, S, kind, i, s, ver, fails) ==
   LET P == Fork(s, "1")
-  IN UNION {IF kind = "plain" THEN WriterS(D, S1, P, Lab(i, ver)) ELSE UForkS(D, S1, P, Lab(i, ver)) :
+      lab == IF fails THEN Lab(i, 0) ELSE Lab(i, ver)
+  IN UNION {IF kind = "plain" THEN WriterS(D, S1, P, lab, fails) ELSE UForkS(D, S1, P, lab, fails) :
               S1 \in {AdvS(D, S, {s}, P, {})}}
 
-RECURSIVE StagesS(_, _, _, _, _, _, _, _)
-StagesS(D, S, kinds, vers, i, s, ex, bad) ==
+\* the chain is evaluated lazily from the first stage on: nothing after a failed stage is started
+RECURSIVE StagesS(_, _, _, _, _, _, _, _, _)
+StagesS(D, S, kinds, vers, f, i, s, ex, bad) ==
   IF i > NStages THEN {[S |-> S, ex |-> ex, bad |-> bad]}
-  ELSE UNION {StagesS(D, st.S, kinds, vers, i + 1, st.out,
-                      IF st.ex THEN ex \cup {i} ELSE ex, IF st.bad THEN bad \cup {i} ELSE bad) :
-                st \in StageS(D, S, kinds[i], i, s, vers[i])}
-RunWf(D, S, kinds, vers) == CHOOSE x \in StagesS(D, S, kinds, vers, 1, Root(WfName), {}, {}) : TRUE
+  ELSE UNION {IF st.failed
+              THEN {[S |-> st.S, ex |-> ex \cup {i}, bad |-> IF st.bad THEN bad \cup {i} ELSE bad]}
+              ELSE StagesS(D, st.S, kinds, vers, f, i + 1, st.out,
+                           IF st.ex THEN ex \cup {i} ELSE ex, IF st.bad THEN bad \cup {i} ELSE bad) :
+                st \in StageS(D, S, kinds[i], i, s, vers[i], i = f)}
+RunWf(D, S, kinds, vers, f) == CHOOSE x \in StagesS(D, S, kinds, vers, f, 1, Root(WfName), {}, {}) : TRUE
 
 VARIABLES sysA, sysF,   \* the two systems
           kinds,        \* kind of every stage (fixed per behaviour)
           prev,         \* version vector of the previous run (<<>> before the first)
+          lastfail,     \* stage at which the previous run failed (0: it succeeded)
+          est,          \* versions of the stages whose effect is established: the previous run's
+                        \* vector up to (excluding) the stage at which it failed
           lastA, lastF, \* [ex, bad] of the last run in each system
           nruns
-wvars == <<sysA, sysF, kinds, prev, lastA, lastF, nruns>>
+wvars == <<sysA, sysF, kinds, prev, lastfail, est, lastA, lastF, nruns>>
 NoRun == [ex |-> {}, bad |-> {}]
+MinVer == CHOOSE v \in Versions : \A w \in Versions : v <= w
 
-WInit == /\ sysA = Sys0 /\ sysF = Sys0 /\ kinds \in KindChoices /\ prev = <<>>
+WInit == /\ sysA = Sys0 /\ sysF = Sys0 /\ kinds \in KindChoices /\ prev = <<>> /\ lastfail = 0 /\ est = <<>>
          /\ lastA = NoRun /\ lastF = NoRun /\ nruns = 0
-WRun(vers) == \E a \in {RunWf(Dev, sysA, kinds, vers)}, f \in {RunWf({}, sysF, kinds, vers)} :
-                 /\ sysA' = a.S /\ sysF' = f.S
-                 /\ lastA' = [ex |-> a.ex, bad |-> a.bad] /\ lastF' = [ex |-> f.ex, bad |-> f.bad]
-                 /\ prev' = vers /\ nruns' = nruns + 1 /\ UNCHANGED kinds
-WNext == nruns < MaxRuns /\ \E vers \in [1..NStages -> Versions] : WRun(vers)
+WRun(vers, f) == \E a \in {RunWf(Dev, sysA, kinds, vers, f)}, g \in {RunWf({}, sysF, kinds, vers, f)} :
+                 /\ sysA' = a.S /\ sysF' = g.S
+                 /\ lastA' = [ex |-> a.ex, bad |-> a.bad] /\ lastF' = [ex |-> g.ex, bad |-> g.bad]
+                 /\ prev' = vers /\ lastfail' = f
+                 /\ est' = IF f = 0 THEN vers ELSE SubSeq(vers, 1, f - 1)
+                 /\ nruns' = nruns + 1 /\ UNCHANGED kinds
+\* the versions behind a failing stage do not matter (never started): one representative
+WNext == /\ nruns < MaxRuns
+         /\ \E f \in FailAt \cap (0..NStages) : \E vers \in [1..NStages -> Versions] :
+               /\ f > 0 => \A j \in f..NStages : vers[j] = MinVer
+               /\ WRun(vers, f)
 \* the variables of Handles are not used at this level
 WSpec == /\ WInit /\ m = M0 /\ mfix = M0 /\ r = R0 /\ fired = {} /\ stale = FALSE /\ nops = 0 /\ lastop = NoOp
          /\ [][WNext /\ UNCHANGED vars]_<<wvars, vars>>
@@ -109,10 +139,12 @@ NeverReplayInvalidA == lastA.bad = {}
 AsBuiltUnlessFired == sysA.fired # {} \/
                       (/\ sysA.m.valid = sysA.r.valid /\ lastA.bad = {} /\ lastA.ex = lastF.ex)
 \* documented semantics ("no fast revert", docs/source/values.md): stage i is replayed exactly when
-\* nothing at or before i differs from the immediately preceding run
-Expected(vers) == {i \in 1..NStages : prev = <<>> \/ \E j \in 1..i : vers[j] # prev[j]}
-NoFastRevertF == [][lastF'.ex = Expected(prev')]_<<wvars, vars>>
+\* nothing at or before i differs from what the immediately preceding run established; a run executes
+\* nothing behind the stage it fails at, and the failing stage itself always
+Expected(vers, f) == {i \in 1..(IF f = 0 THEN NStages ELSE f) :
+                        i = f \/ i > Len(est) \/ \E j \in 1..i : vers[j] # est[j]}
+NoFastRevertF == [][lastF'.ex = Expected(prev', lastfail')]_<<wvars, vars>>
 \* which deviations these workflows can reach
 OnlyForkEdge == sysA.fired \subseteq {"ForkEdgeUnrecorded"}
-WView == <<sysA, sysF, kinds, prev, lastA, lastF, nruns>>
+WView == <<sysA, sysF, kinds, prev, lastfail, est, lastA, lastF, nruns>>
 =============================================================================
